@@ -46,7 +46,9 @@ Esc(p, i) ==         \* p[i] = backslash
              ELSE [st |-> "ok", un |-> FALSE, c |-> HexVal(p[i + 2]), pos |-> i + 3]
           ELSE [st |-> "ok", un |-> FALSE, c |-> 0, pos |-> i + 2]
        ELSE IF ~Printable(d) THEN [st |-> "reject", un |-> FALSE, c |-> 0, pos |-> 0]
-       ELSE [st |-> "ok", un |-> IsAlnum(d), c |-> d, pos |-> i + 2]
+       \* readme, "Escaped char": a backslash in front of a character denotes that character (letters and digits included;
+       \* only a lower-case x starts a hex escape)
+       ELSE [st |-> "ok", un |-> FALSE, c |-> d, pos |-> i + 2]
 
 SetChar(p, i) ==     \* a set member starting at i (not ']' and not end)
   IF p[i] = BS THEN Esc(p, i)
